@@ -29,6 +29,16 @@ def c02 (args res : List String) : Verdict :=
         else if files ≠ expected then vProp "output-files-differ-from-the-original-content" tag
         else vOk tag
     | _, _, _, _ => vBad (joinToks args)
+  | ["lag", npS, lateS] =>
+    -- two honest seeders in memory, the only holder of the last piece ready late (T7's run with a second connection whose
+    -- task has missed announcements): all pieces owned, nobody given up, the file identical
+    let get (key : String) : String := (res.filterMap fun t => if t.startsWith (key ++ "=") then some ((t.drop (key.length + 1)).toString) else none).headD "?"
+    let tag := s!"lag-{if lateS.toNat?.getD 0 > 32 then "beyond-the-channel" else "within-the-channel"}"
+    if res = ["P"] then vProp "a-task-panicked" tag
+    else if get "killed" ≠ "-" then vProp s!"connection-to-an-honest-peer-given-up-{get "killed"}" tag
+    else if get "hang" = "y" ∨ get "have" ≠ s!"{npS}/{npS}" then vProp "download-did-not-complete" tag
+    else if get "file" ≠ "ok" then vProp "output-file-differs-from-the-original-content" tag
+    else vOk tag
   | _ => vBad (joinToks args)
 
 end Driver
